@@ -277,12 +277,19 @@ class PythonASTOptimizer(ast.NodeTransformer):
         """Eliminate dead code from except try bodies."""
         new_node = self.generic_visit(node)
         assert isinstance(new_node, ast.Try)
+        # Statements which are bare constants or names are eliminated (see `visit_Expr`),
+        # which may leave a block empty. Python rejects a `try` with an empty body and a
+        # `try` with neither handlers nor a `finally` block.
+        body = _filter_dead_code(new_node.body) or [ast.Pass()]
+        finalbody = _filter_dead_code(new_node.finalbody)
+        if not finalbody and not new_node.handlers:
+            finalbody = [ast.Pass()]
         return ast.copy_location(
             ast.Try(
-                body=_filter_dead_code(new_node.body),
+                body=body,
                 handlers=new_node.handlers,
                 orelse=_filter_dead_code(new_node.orelse),
-                finalbody=_filter_dead_code(new_node.finalbody),
+                finalbody=finalbody,
             ),
             new_node,
         )
